@@ -250,13 +250,12 @@ def _bool(o):
     return o
 
 
-class SInt(int):
-    """symbolic Python int (mathematical integer).  Subclass of int so that int(x) may return it."""
+class SInt:
+    """symbolic Python int (mathematical integer).  Deliberately NOT a subclass of int: a C-level operation that
+    accepts int subclasses (float.__mul__, Fraction arithmetic, ...) would silently use a dummy machine value."""
 
-    def __new__(cls, e, eng):
-        o = int.__new__(cls, 0)
-        o.e, o.eng = e, eng
-        return o
+    def __init__(self, e, eng):
+        self.e, self.eng = e, eng
 
     def _w(self, e):
         return SInt(e, self.eng)
